@@ -6,14 +6,20 @@ args = sys.argv[1:]
 j = 4
 if "-j" in args:
     i = args.index("-j"); j = int(args[i + 1]); del args[i:i + 2]
-names = args or sorted(os.listdir("/verif/seeded"))
+names = args or sorted(x for x in os.listdir("/verif/seeded") if os.path.isdir("/verif/seeded/" + x))
 def run(n):
     d = "/verif/seeded/" + n
     meta = json.load(open(d + "/meta.json"))
     ids = meta.get("checks") or [meta["property"]]
     p = subprocess.run(["/verif/tools/seedtest.py", d + "/patch.diff"] + ids, stdout=subprocess.PIPE, stderr=subprocess.STDOUT, text=True)
     res = [l for l in p.stdout.splitlines() if ": exit=" in l]
-    return "%-8s %s" % (n, " ; ".join(res))
+    caught = [l.split(":")[0].strip() for l in res if "DETECTED" in l]
+    return n, caught, "%-8s %s" % (n, " ; ".join(res))
+RP = "/verif/seeded/RESULTS.json"
+results = json.load(open(RP)) if os.path.exists(RP) else {}
 with ThreadPoolExecutor(j) as ex:
-    for r in ex.map(run, names):
-        print(r, flush=True)
+    for n, caught, line in ex.map(run, names):
+        print(line, flush=True)
+        e = results.setdefault(n, {})
+        e["caught_by"] = ", ".join(caught) if caught else "MISSED"
+json.dump(results, open(RP, "w"), indent=1, sort_keys=True)
